@@ -57,7 +57,7 @@ def run(ctx):
     rep = Report(ctx, "fault_enumeration")
     q = ctx.quick
     seed = ctx.seeds(1, 1)[0]
-    rep.assumptions += ["fault kinds: %s (+ %s under specified noise); strings and SD=None are not in the statement and not injected" % (FAULT_KINDS, FAULT_KINDS_SPEC)]
+    rep.assumptions += ["fault kinds: %s (+ %s under specified noise)" % (FAULT_KINDS, FAULT_KINDS_SPEC)]
     cfgs = [(D, m, c) for D in ((1, 2) if not q else (1, 2)) for m in ("det", "auto", "decl", "spec") for c in (None, "half")
             if not (q and (c == "half" and m in ("auto", "decl"))) and not (q and D == 2 and m in ("auto", "spec"))]
     bases = [job(D, m, c, seed) for D, m, c in cfgs]
